@@ -299,6 +299,11 @@ int assemble_code(
     return -1;
   }
 
+  // As naken_asm does between its passes: the labels of pass 1 stay and
+  // pass 2 may not define them again.
+  asm_context.symbols.lock();
+  asm_context.symbols.scope_reset();
+
   asm_context.pass = 2;
   asm_context.init();
   asm_context.set_cpu(cpu_name);
